@@ -1,6 +1,7 @@
 //! One binary, one sub-command per property: `fp_checks <ID> --tier quick|thorough` or `fp_checks <ID> --replay <file>`.
 mod imp;
 mod gen;
+mod c01;
 mod c03;
 mod c08;
 mod c09;
@@ -49,6 +50,7 @@ fn main() {
         let txt = std::fs::read_to_string(&path).expect("replay file");
         let v: serde_json::Value = serde_json::from_str(&txt).expect("replay json");
         match id.as_str() {
+            "C01" => c01::replay(&v),
             "C03" => c03::replay(&v),
             "C08" => c08::replay(&v),
             "C09" => c09::replay(&v),
@@ -62,6 +64,7 @@ fn main() {
         }
     } else {
         match id.as_str() {
+            "C01" => c01::run(tier),
             "C03" => c03::run(tier),
             "C08" => c08::run(tier),
             "C09" => c09::run(tier),
